@@ -1019,6 +1019,12 @@ func c11OptionalAuth(c *Ctx) {
 		if a.Op == token.ILLEGAL && positiveLeaf(a.Base) {
 			return true, true
 		}
+		// the session check compared in the branch itself: checkSession(...) == checkSessionOK
+		if (a.Op == token.EQL || a.Op == token.NEQ) && core.IsCallResult(core.ResolveCellLoad(a.Base), -1, "(*home.Auth).checkSession") {
+			if cst, ok := a.Other.(*ssa.Const); ok && core.NamedKey(cst.Type()) == "home.checkSessionResult" && isConstNamed(p, cst, "home", "checkSessionOK") {
+				return true, a.Op == token.EQL
+			}
+		}
 		return false, false
 	})
 	offT, nRet := core.UnguardedSinks(oat, func(in ssa.Instruction) bool {
@@ -1061,6 +1067,12 @@ func c11WrapperShapes(c *Ctx) {
 		{kEnsurePOST, kEnsure, "ensurePOST delegates to ensure"},
 	} {
 		fn := p.Fn(s.fn)
+		if (s.fn == kEnsureGET || s.fn == kEnsurePOST) && p.FnExact(s.fn) == nil && fn != nil {
+			// the convenience wrapper was folded into its callers, which now call ensure with the method themselves
+			// (the registrations are judged per URL)
+			r.Ok("C11-D3", "wrapper-shape:"+s.fn, p.FnPos(fn), s.fn+" is gone: its callers call ensure themselves")
+			continue
+		}
 		if fn == nil {
 			r.Undecided("C11-D3", "wrapper-shape:"+s.fn, "-", "anchor not found")
 			continue
@@ -1071,7 +1083,7 @@ func c11WrapperShapes(c *Ctx) {
 	}
 	// ensureGET/POST pass the right constant
 	for fnk, m := range map[string]string{kEnsureGET: "GET", kEnsurePOST: "POST"} {
-		fn := p.Fn(fnk)
+		fn := p.FnExact(fnk)
 		if fn == nil {
 			continue
 		}
